@@ -12,8 +12,10 @@ import (
 	"unsafe"
 
 	ipfslog "berty.tech/go-ipfs-log"
+	"berty.tech/go-ipfs-log/accesscontroller"
 	"berty.tech/go-ipfs-log/entry"
 	"berty.tech/go-ipfs-log/entry/sorting"
+	"berty.tech/go-ipfs-log/identityprovider"
 	"berty.tech/go-ipfs-log/iface"
 	"github.com/ipfs/go-cid"
 )
@@ -286,7 +288,7 @@ func genE1(r *Run, prop string) (*e1World, *e1Config) {
 	ws := E1Writers()
 	sameWriter := r.Choose("same-writer", 4) == 0
 	for i := 0; i < cfg.nlogs; i++ {
-		o := &ipfslog.LogOptions{ID: "L"}
+		o := &ipfslog.LogOptions{ID: "L", AccessController: e1Controller{}}
 		if w.byHash {
 			o.SortFn = sortByHash
 		}
@@ -771,4 +773,15 @@ func (w *e1World) makeEvil(r *Run) {
 	if err != nil {
 		r.Harness("NewLog: %v", err)
 	}
+}
+
+// e1Controller permits everything but looks at the log's entries first, as a real policy may
+// (this runs on Join's verification goroutines and inside Append's critical section).
+type e1Controller struct{}
+
+func (e1Controller) CanAppend(_ accesscontroller.LogEntry, _ identityprovider.Interface, c accesscontroller.CanAppendAdditionalContext) error {
+	if c != nil {
+		_ = c.GetLogEntries()
+	}
+	return nil
 }
